@@ -71,6 +71,34 @@ func c20Helpers() []c20Helper {
 		{name: "ItemsEqual(x,IRI)", run: func(x ap.Item, r *c20Result) {
 			must(r, !ap.ItemsEqual(x, ap.IRI("https://example.com/i")) && !ap.ItemsEqual(ap.IRI("https://example.com/i"), x), "equal to a non-nil IRI")
 		}},
+		{name: "ItemsEqual([x],IRIs[1])", run: func(x ap.Item, r *c20Result) {
+			// a list holding x against IRI lists of the same and of other lengths, both orders
+			l := ap.ItemCollection{x}
+			for _, iris := range []ap.Item{ap.IRIs{"https://example.com/i"}, &ap.IRIs{"https://example.com/i"}, ap.IRIs{}, ap.IRIs{"https://example.com/i", "https://example.com/j"}} {
+				must(r, !ap.ItemsEqual(l, iris) || len(*mustIRIs(iris)) == 0, "a list holding it equals a list of IRIs")
+				ap.ItemsEqual(iris, l)
+				l.Equals(iris)
+			}
+			l2 := ap.ItemCollection{ap.IRI("https://example.com/i"), x}
+			ap.ItemsEqual(l2, ap.IRIs{"https://example.com/i", "https://example.com/j"})
+			l2.Equals(&ap.IRIs{"https://example.com/i", "https://example.com/j"})
+		}},
+		{name: "Endpoints{x}.MarshalJSON/GobEncode/inside an actor", run: func(x ap.Item, r *c20Result) {
+			// x in every item field of the endpoints of an actor (a nested struct that is not itself an item)
+			ep := &ap.Endpoints{OauthAuthorizationEndpoint: x, OauthTokenEndpoint: x, ProvideClientKey: x, SignClientKey: x, SharedInbox: x, UploadMedia: x}
+			ep.MarshalJSON()
+			ep.GobEncode()
+			a := &ap.Actor{ID: "https://example.com/p", Type: ap.PersonType, Endpoints: ep, PublicKey: ap.PublicKey{ID: "https://example.com/k"}}
+			a.MarshalJSON()
+			ap.MarshalJSON(a)
+			ap.GobEncode(a)
+			ap.ItemsEqual(a, a)
+			a.Clean()
+			a.Recipients()
+			ap.FlattenProperties(a)
+			_ = fmt.Sprintf("%v %s", a, ep)
+			ap.MarshalJSON(ap.ItemCollection{ap.IRI("https://example.com/i"), a})
+		}},
 		{name: "OnLink", run: func(x ap.Item, r *c20Result) { ap.OnLink(x, c20cb[ap.Link](r)) }},
 		{name: "OnObject", run: func(x ap.Item, r *c20Result) { ap.OnObject(x, c20cb[ap.Object](r)) }},
 		{name: "OnActivity", run: func(x ap.Item, r *c20Result) { ap.OnActivity(x, c20cb[ap.Activity](r)) }},
@@ -447,4 +475,14 @@ func c20Audit(p *engine.Parent) error {
 	p.Extra["exported_item_taking_functions_in_tree"] = total
 	p.Extra["coverage_gaps"] = gaps
 	return nil
+}
+
+func mustIRIs(it ap.Item) *ap.IRIs {
+	switch v := it.(type) {
+	case ap.IRIs:
+		return &v
+	case *ap.IRIs:
+		return v
+	}
+	return &ap.IRIs{}
 }
